@@ -351,11 +351,18 @@ func (r *runner) doClient(op Op) []gate.Event {
 		ev := gate.Event{"op": "enumwait"}
 		var got []blob.SizedRef
 		var err error
-		ev["fast"] = r.timed(func() {
+		call := func() {
 			got, err = r.clientEnum(func(ch chan<- blob.SizedRef) error {
 				return r.cl.EnumerateBlobsOpts(ctx, ch, client.EnumerateOpts{MaxWait: time.Second})
 			})
-		})
+		}
+		fast := r.timed(call)
+		if !fast && len(got) > 0 {
+			// a transient stall of the machine is not a long poll that waits: a server that waits does so every time
+			ev["retried"] = true
+			fast = r.timed(call)
+		}
+		ev["fast"] = fast
 		ev["res"] = classify(err)
 		if err != nil {
 			ev["detail"] = err.Error()
@@ -421,7 +428,7 @@ func (r *runner) doRaw(op Op) []gate.Event {
 		if n < len(op.Bs) {
 			n = len(op.Bs)
 		}
-		return []gate.Event{r.emit(r.raw.stat(op.Bs, n, !op.NoVer, op.Get && n <= 30))}
+		return []gate.Event{r.emit(r.raw.stat(op.Bs, n, !op.NoVer, op.Get))}
 	case "enum":
 		after := r.u.CursorString(op.After, op.Form)
 		wait := op.Wait
@@ -436,7 +443,13 @@ func (r *runner) doRaw(op Op) []gate.Event {
 				r.slowBudget--
 			}
 		}
-		return []gate.Event{r.emit(r.raw.enum(after, op.Limit, wait))}
+		ev := r.raw.enum(after, op.Limit, wait)
+		if lst, _ := ev["list"].([]any); wait == 2 && ev["fast"] == false && len(lst) > 0 {
+			// a transient stall of the machine is not a long poll that waits: a server that waits does so every time
+			ev = r.raw.enum(after, op.Limit, wait)
+			ev["retried"] = true
+		}
+		return []gate.Event{r.emit(ev)}
 	case "remove":
 		out := []gate.Event{r.emit(r.raw.remove(op.Bs))}
 		r.xremove(op.Bs)
